@@ -729,6 +729,9 @@ class Engine(object):
     table = self.tables[table_id]
     col = table.get_column(col_id)
     checkpoint = self._get_undo_checkpoint()
+    # Formulas may also mark records for auto-removal (e.g. the `group` column of summary tables);
+    # this evaluation must not leave such marks behind either.
+    saved_auto_removes = set(self.docmodel._auto_remove_set)
     # Makes calls to REQUEST synchronous, since raising a RequestingError can't work here.
     self._sync_request = True
     try:
@@ -739,6 +742,7 @@ class Engine(object):
       # processed (e.g. don't get applied to DocStorage), so it's important to reverse them.
       self._sync_request = False
       self._undo_to_checkpoint(checkpoint)
+      self.docmodel._auto_remove_set = saved_auto_removes
 
   def _recompute(self, node, row_ids=None):
     """
